@@ -24,6 +24,8 @@ pub mod serde_cli;
 pub mod sync;
 #[cfg(feature = "e_codec")]
 pub mod codec;
+#[cfg(feature = "e_doccodec")]
+pub mod doccodec;
 
 use crate::{rng::Rng, Out, Session};
 use std::collections::BTreeMap;
@@ -85,6 +87,8 @@ pub fn generate(engine: &str, r: &mut Rng, opts: &BTreeMap<String, String>, sess
         "crdtx" => crdtx::generate(r, opts, sess, out),
         #[cfg(feature = "e_store")]
         "store" => store::generate(r, opts, sess, out),
+        #[cfg(feature = "e_doccodec")]
+        "doccodec" => doccodec::generate(r, opts, sess, out),
         #[cfg(feature = "e_sync")]
         "sync" => sync::generate(r, opts, sess, out),
         _ => panic!("unknown engine {}", engine),
